@@ -227,18 +227,22 @@ LMF_TRUST = ('Trusted: Coq kernel + vm_compute; translator of the per-version el
              'harness obtains that tree with its own expat run; xml.etree serialisation and quoteattr are modelled exactly '
              '(byte-for-byte against real dumps); correspondence harness, document generator/mutator and oracles (Python).')
 CLAIMED.update({
- 'C20': ('Coq proof over a Gallina model of wn.lmf.load (read_header, the expat handlers driven by the per-version tables '
-         'regenerated from the source, the _validate functions) written from wn/lmf.py; tied to the code by differential '
-         'correspondence on generated documents and single-fault mutations of them (loaded resource or error class must agree); '
-         'an oracle on the real code checks that every mutated document is rejected by load and by add with the database '
-         'unchanged, and that scan_lexicons agrees with load on accepted documents',
-         'Partial. Theorems (closed under the global context): the header is accepted exactly for the XML declaration followed by '
-         'a DOCTYPE of a supported version, and dump always writes such a header; an element the declared version does not allow '
-         '(incl. elements of other versions), a repeated single child or a missing id anywhere in the document makes load fail. '
-         'Not proved: ill-formed XML (expat\'s domain), the remaining attribute-level requirements (decided by correspondence on '
-         'mutations: missing required attributes, bad Count text, ...), and "scan_lexicons agrees with load" (scan_lexicons is a '
-         'regular-expression scanner over raw text that is not modelled; decided by the oracle only). "Database unchanged" is C06\'s '
-         'atomicity theorem plus the fact that add starts from the loaded resource.',
+ 'C20': ('Coq proof over Gallina models of wn.lmf.load (read_header, the expat handlers driven by the per-version tables '
+         'regenerated from the source, the _validate functions) and of wn.lmf.scan_lexicons (hand-written scanners equivalent to '
+         'its two regular expressions, plus _unescape_attribute and UTF-8 decoding), written from wn/lmf.py; tied to the code by '
+         'differential correspondence on generated documents, single-fault mutations and crafted raw files (loaded resource / scan '
+         'result or error class must agree); an oracle on the real code checks that every mutated document is rejected by load '
+         'and by add with the database unchanged, and that scan_lexicons agrees with load on accepted documents',
+         'Theorems (closed under the global context): the header is accepted exactly for the XML declaration followed by a DOCTYPE '
+         'of a supported version, and dump always writes such a header; an element the declared version does not allow (incl. '
+         'elements of other versions), a repeated single child or a missing id anywhere in the document makes load fail; for every '
+         'file dump writes, scan_lexicons returns exactly the id, version, label and extension base of every lexicon in order, '
+         'whatever other attribute values, texts and metadata contain (the start-tag tokenisation and unescaping are exact); '
+         'comments and CDATA sections contribute nothing; a start tag without id or version never yields a list. Partial: '
+         'ill-formed XML is expat\'s domain (not modelled); the remaining attribute-level requirements are decided by '
+         'correspondence on mutations; "scan = load" is proved for dump-written files (scan_dump composed with C02\'s round trip) '
+         'and decided by the oracle for other valid files. "Database unchanged" is C06\'s atomicity theorem plus the fact that '
+         'add starts from the loaded resource. The proofs uncovered defects F21/F21b of scan_lexicons (fixed).',
          LMF_TRUST, 'DESIGN.md section 5 C20, Appendix E'),
 })
 
